@@ -336,7 +336,7 @@ func main() {
 	}
 
 	// ---- overlap requirement --------------------------------------------------
-	minPairs, minHead := r.Pick(200, 1500), r.Pick(40, 300)
+	minPairs, minHead := r.Pick(500, 5000), r.Pick(200, 2000)
 	pairsTab, headTab, opsTab, sigTab, flightTab := map[string]int{}, map[string]int{}, map[string]int{}, map[string]int{}, map[string]int{}
 	pairKinds := map[string]map[string]int{}
 	sigSamples := map[string][]string{}
